@@ -28,23 +28,41 @@ def parseKeys (s : String) (K : Nat) : Option (List Key) :=
   | some ks => if ks.all (· < K) && ks.length ≤ 8 then some ks else none
   | none => none
 
-def mkParams (p d m r q st : Nat) : Params :=
+/-- the unhealthy_status lists a load step can choose from (same table in c09.go) -/
+def statusTable : Nat → List Nat
+  | 1 => [500]
+  | 2 => [500, 5]
+  | 3 => [5]
+  | 4 => [502, 404]
+  | 5 => [4, 429, 503]
+  | 6 => [50]
+  | 7 => [200, 2]
+  | _ => []
+
+def mkParams (p d m r q st x : Nat) : Params :=
   { passive := p == 1,
     failDur := if p == 1 then d else 0,
     maxFails := if m == 0 then 1 else m,     -- reverseproxy.go:359-361
     retries := r,
     maxReq := if p == 1 then q else 0,       -- reverseproxy.go:1218-1223
-    strikes := if p == 1 then st else 0 }
+    firstMax := x,                           -- an upstream's own max_requests wins (reverseproxy.go:1218-1223)
+    badStatus := if p == 1 then statusTable st else [] }
 
-def outcomeNames : List String := ["ok", "e5", "rst", "hup", "pan", "her"]
+def outcomeNames : List String := ["ok", "e5", "c404", "c429", "c502", "c503", "rst", "hup", "pan", "her"]
 
 def parseStep (s : String) (K : Nat) : Option SStep :=
   match s.splitOn ":" with
   | ["L", ks, p, d, m, r, q, st] =>
     match parseKeys ks K, num p, num d, num m, num r, num q, num st with
     | some ks, some p, some d, some m, some r, some q, some st =>
-      if p ≤ 1 && r ≤ 8 && st ≤ 2 && m ≤ 100 && q ≤ 100 then some (.load ks (mkParams p d m r q st)) else none
+      if p ≤ 1 && r ≤ 8 && st ≤ 7 && m ≤ 100 && q ≤ 100 then some (.load ks (mkParams p d m r q st 0)) else none
     | _, _, _, _, _, _, _ => none
+  | ["L", ks, p, d, m, r, q, st, x] =>
+    match parseKeys ks K, num p, num d, num m, num r, num q, num st, num x with
+    | some ks, some p, some d, some m, some r, some q, some st, some x =>
+      if p ≤ 1 && r ≤ 8 && st ≤ 7 && m ≤ 100 && q ≤ 100 && 1 ≤ x && x ≤ 100 then
+        some (.load ks (mkParams p d m r q st x)) else none
+    | _, _, _, _, _, _, _, _ => none
   | ["B", ks] => (parseKeys ks K).map .badLoad
   | ["C"] => some .unloadCur
   | ["N", "G"] => some (.newReq true)
@@ -70,21 +88,24 @@ def totalTicks : List SStep → Nat
 def showObjs (s : State) : String :=
   ",".intercalate ((List.range s.nextHost).map fun o => toString (s.inflight o) ++ "/" ++ toString (s.fails o))
 
-def showUp (p : Params) (s : State) (u : Key × HostId) : String :=
-  toString u.2 ++ (if !healthy p s u.2 then "u" else if full p s u.2 then "f" else "a")
+def showUp (p : Params) (s : State) (iu : Nat × (Key × HostId)) : String :=
+  toString iu.2.2 ++ (if !healthy p s iu.2.2 then "u" else if full p iu.1 s iu.2.2 then "f" else "a")
 
 def showCur (d : DState) : String :=
   match curLive d with
   | some c =>
     match d.s.cfgs[c]? with
-    | some cs => ",".intercalate (cs.ups.map (showUp cs.par d.s))
+    | some cs => ",".intercalate ((List.range cs.ups.length).zip cs.ups |>.map (showUp cs.par d.s))
     | none => ""
   | none => ""
 
 def showPool (s : State) (K : Nat) : String :=
   ",".intercalate ((List.range K).map fun k =>
     match s.pool k with
-    | some (o, n) => toString o ++ "x" ++ toString n
+    | some (o, n) =>
+      -- object and usage count, then what GET /reverse_proxy/upstreams reports for the address:
+      -- admin.go ranges over the pool and reads NumRequests()/Fails() of the pooled Host
+      toString o ++ "x" ++ toString n ++ ":" ++ toString (s.inflight o) ++ "/" ++ toString (s.fails o)
     | none => "-")
 
 def snapshot (d : DState) (K : Nat) (ev : String) : String :=
@@ -126,7 +147,7 @@ def stressOutcome (seed i : Nat) : String :=
   | _ => "abort"
 
 def stressParams : Params :=
-  { passive := true, failDur := 100, maxFails := 100, retries := 0, maxReq := 0, strikes := 1 }
+  { passive := true, failDur := 100, maxFails := 100, retries := 0, maxReq := 0, firstMax := 0, badStatus := [500] }
 
 /-- one request from entry to return, on Host object `i % 2`; returns the new state and how the
     handler returned -/
@@ -197,6 +218,7 @@ def handleStress (ns seeds : String) : String :=
 
 def handle : List String → String
   | ["sched", k, steps] => handleSched k steps
+  | ["schedcf", k, steps] => handleSched k steps   -- same schedule, configuration delivered as Caddyfile
   | ["stress", n, seed] => handleStress n seed
   | ["static", "defer"] => "defer-ok"
   | _ => "bad-op"
